@@ -13,14 +13,16 @@ The programs of `NA/Model/IosSessionProg.lean` are single terms with two reading
 
 * `denote_*` — their semantics IS the executable model used by every C15 theorem
   (`applyCommands … true`, `cmd … true`, `check`, `sendReloadCmd`, `cancelReload`, `prepareDevice`,
-  `stripReloadBanner`);
-* `paths_*` — their path set IS the regenerated one.
+  `stripReloadBanner`, `writeMem … 2`, `loginEnable`);
+* `paths_applyCommands`, `paths_loginEnable` — the path set of the ENTRY POINT, every helper of the package
+  inlined on both sides (the programs contain their sub-programs as sub-terms; the translator inlines by
+  object identity), IS the regenerated one.  No theorem names a helper of the source: wrapping, inlining,
+  extracting or moving a helper does not change the fact (robustness round 2).
 
 Dropping or moving a `defer`, moving `writeMem()` into the closure, removing the re-arm or the
 accumulation of `needReload`, forgetting `s.reloadActive = true` on a branch, changing a prompt
 pattern or the order of the exchanges changes the generated set; restructuring the model breaks
-the `denote` equations.  `writeMem` with its retry loop (`Prog.loop`) and the login / enable dialogue
-(`LoginEnable`, `go/pkg/cisco/device.go`) are programs of the same embedding.
+the `denote` equations.
 -/
 namespace NA.C15Skel
 open NA.Ios NA.Ios.Prog
